@@ -1822,8 +1822,8 @@ def run(ck: Check):
     # mailboxes); 2x2x2 saturates at depth 10 (1 244 states): complete
     if thorough:
         djobs = [(None, 14, 2, 2, 2), (None, 14, 3, 2, 2)]
-        djobs += [(f, 8, 2, 3, 3) for f in alphabet(2, 3, 3)]
-        djobs += [(f, 6, 3, 3, 3) for f in alphabet(3, 3, 3)]
+        djobs += [(f, 7, 2, 3, 3) for f in alphabet(2, 3, 3)]
+        djobs += [(f, 5, 3, 3, 3) for f in alphabet(3, 3, 3)]
     else:
         djobs = [(None, 14, 2, 2, 2), (None, 6, 3, 2, 2)]
     nrand = 100000 if thorough else 4000
